@@ -585,3 +585,33 @@ func CanonPitCs(d table.VerifPitCsDump, q []table.VerifPitQueueEntry, o CanonOpt
 	}
 	return b.String()
 }
+
+// ---- conveniences for histories that change the FIB or let time pass (C02, C08) ----
+
+// AddRoute / RemoveRoute / SetStrategy / UnsetStrategy change the live (process-global) FIB the
+// way the management modules do (table.FibStrategyTable.*Enc).
+func (s *Sim) AddRoute(prefix string, face, cost uint64) {
+	table.FibStrategyTable.InsertNextHopEnc(Name(prefix), face, cost)
+}
+func (s *Sim) RemoveRoute(prefix string, face uint64) {
+	table.FibStrategyTable.RemoveNextHopEnc(Name(prefix), face)
+}
+func (s *Sim) SetStrategy(prefix, strategy string) {
+	table.FibStrategyTable.SetStrategyEnc(Name(prefix), Name(strategy))
+}
+func (s *Sim) UnsetStrategy(prefix string) { table.FibStrategyTable.UnSetStrategyEnc(Name(prefix)) }
+
+// RunFor lets d of virtual time pass the way a running thread experiences it: the clock moves in
+// steps of `step` (0 = the PIT reaper interval, 100 ms) and both periodic arms run after each
+// step. Returns everything sent meanwhile (normally nothing). This is the "quiesce" step of C08.
+func (s *Sim) RunFor(d, step time.Duration) []Send {
+	if step <= 0 {
+		step = table.VerifPitTick
+	}
+	mark := len(s.log)
+	for el := time.Duration(0); el < d; el += step {
+		vtime.Advance(step)
+		s.Thread.VerifTick()
+	}
+	return s.log[mark:]
+}
